@@ -26,7 +26,8 @@
     Recursion is on a depth counter [fuel] that is decremented at every nested
     type (references included), as everywhere else in this development: [ty]
     is a nested inductive and references make the descent non-structural.
-    The result does not depend on the fuel once it is sufficient. *)
+    [Err EFuel] means that the counter was too small for the nesting depth of
+    the value; it is not an X.691 outcome. *)
 From Asn1V Require Import Base.Prelude Base.Bits Base.Utf8 Syntax.Asn1.
 
 (** * Clause 11: the fields and their encoding *)
